@@ -633,9 +633,20 @@ class ClientTls(Client):
         except OSError as ex:
             if ex.errno in (ssl.SSL_ERROR_WANT_READ, ssl.SSL_ERROR_WANT_WRITE):
                 return False
-            elif ex.errno in (ssl.SSL_ERROR_EOF, ):
-                self.close()
-                raise   # should give up here nicely
+            elif ex.errno in (ssl.SSL_ERROR_EOF,
+                              errno.ECONNRESET,
+                              errno.EPIPE,
+                              errno.ENETRESET,
+                              errno.ENETUNREACH,
+                              errno.EHOSTUNREACH,
+                              errno.ENETDOWN,
+                              errno.EHOSTDOWN,
+                              errno.ETIMEDOUT,
+                              errno.ECONNREFUSED,
+                              errno.ECONNABORTED):
+                self.close()  # far side terminated so give up nicely
+                self.cutoff = True  # next connect attempt reopens
+                return False
             else:
                 self.close()
                 raise
